@@ -48,7 +48,7 @@ theorem any_name_resolveAttrs (base own : List Field) (n : String)
 theorem finish_attrs (b : CState) (c : Cls) (e0 : Eff) : (finish b c e0).attrs = resolveAttrs b.attrs c.fields := by
   unfold finish; dsimp only; split <;> (try split) <;> (try split) <;> (try split) <;> rfl
 
-theorem finish_hasDict (b : CState) (c : Cls) (e0 : Eff) : (finish b c e0).hasDict = (b.hasDict || !c.slots) := by
+theorem finish_hasDict (b : CState) (c : Cls) (e0 : Eff) : (finish b c e0).hasDict = (b.hasDict || c.givesDict) := by
   unfold finish; dsimp only; split <;> (try split) <;> (try split) <;> (try split) <;> rfl
 
 theorem finish_slotNames (b : CState) (c : Cls) (e0 : Eff) :
@@ -157,7 +157,7 @@ theorem defineCls_inv (pre : List Cls) (b : CState) (c : Cls) (s : CState) (hi :
             left; exact h1
           · exact h1
       · cases hs : c.slots with
-        | false => left; simp
+        | false => left; simp [Cls.givesDict, hs]
         | true =>
           right
           simp only [if_true, List.contains_eq_mem, List.mem_append, decide_eq_true_eq, List.mem_map]
